@@ -1,35 +1,29 @@
 import SockModel.Drive.Common
 import SockModel.Model.SendLoop
+import SockModel.Spec.C01
 /-! Driver for C01 / C07 / C16 (blocking socket layer): trace validation.  The harness reports
 every intercepted system call on the socket under test with its result (`-> sys ...`); the driver
 feeds exactly those answers to the model operation and requires the model to make the same calls
 with the same arguments and to return the same result (correspondence).  The property predicates
-are evaluated on the observations alone. -/
+are evaluated on the observations alone.
+
+The C01 predicate is NOT in this file: every transcript block is parsed into one typed `Spec.C01.Obs`
+and judged by `Spec.C01.specStep` (proved in `Spec/C01.lean` to accept every trace of the model:
+`model_satisfies_spec`).  What stays here: parsing, the correspondence pass, the tags, and the timeout /
+signal clauses of the modes C07s and C16 (`specTimeouts`, `specC0716`). -/
 namespace SockModel.Drive.C01
 open SockModel SockModel.Drive SockModel.SendLoop SockModel.Deadline
+open SockModel.Spec.C01 (RecvObs SysObs Thrown Tok Ret OpObs Obs SpecSt fnv fnvHex fnvStep fnvInit
+  hasEintr hasPollFail hasIoFail anySend anyRecvGot nosigBad isShort specStep)
 
 def genByte (seed j : Nat) : UInt8 := UInt8.ofNat ((seed * 131 + j * 7 + (j / 256) * 13 + 1) % 256)
 def genBytes (seed len : Nat) : Bytes := (List.range len).map (genByte seed)
 
-def fnvStep (h : UInt64) (b : UInt8) : UInt64 := (h ^^^ b.toUInt64) * 1099511628211
-def fnvInit : UInt64 := 1469598103934665603
-def fnvHex (h : UInt64) : String :=
-  let n := h.toNat
-  String.ofList ((List.range 16).reverse.map fun i => hexDigit ((n / 16 ^ i) % 16))
-def fnv (bs : Bytes) : String := fnvHex (bs.foldl fnvStep fnvInit)
-
-inductive SysObs where
-  | poll (t : Int) (a : PollAns)
-  | send (len : Nat) (a : SendAns) (nosignal : Bool)
-  | recv (size : Nat) (kind : String) (n : Nat)    -- kind: got / eof / fail
 
 structure St where
-  wireLen : Nat := 0
-  wireHash : UInt64 := fnvInit
-  peerPending : Bytes := []      -- bytes the peer sent that the SUT has not received yet
-  peerClosed : Bool := false
-  dgrams : List Bytes := []      -- datagrams the peer sent, not yet received
-  lastSent : Option Bytes := none -- last datagram handed to sendto (for `precv`)
+  spec : SpecSt := {}             -- the observer's book-keeping of `Spec.C01` (mode C01 only)
+  peerPending : Bytes := []       -- correspondence: bytes the peer sent that the model has not received yet
+  dgrams : List Bytes := []       -- correspondence: datagrams the peer sent, not yet received by the model
   tags : List String := []
 
 def parseAns (s : String) : Option (String × Nat) :=
@@ -61,7 +55,11 @@ def parseSys (w : List String) : Option SysObs :=
   | ["sys", "recv", size, ans] => do
     let size ← size.toNat?
     let (k, n) ← parseAns ans
-    some (.recv size k n)
+    match k with
+    | "got" => some (.recv size (.got n))
+    | "eof" => some (.recv size .eof)
+    | "fail" => some (.recv size (.fail n))
+    | _ => none
   | _ => none
 
 /-- split the observation lines following an op into system calls and the rest -/
@@ -79,19 +77,51 @@ def callsOf (sys : List SysObs) : List Call :=
   sys.map fun
     | .poll t _ => .poll t
     | .send len _ _ => .send len []
-    | .recv size _ _ => .recv size
+    | .recv size _ => .recv size
 
 def normCalls (cs : List Call) : List Call :=
   cs.map fun | .send len _ => .send len [] | c => c
 
-def pollAdv (sys : List SysObs) : Nat :=
-  sys.foldl (fun acc s => match s with
-    | .poll t (.ready d) => if t ≥ 0 ∧ (d : Int) > t then acc + t.toNat else acc + d
-    | .poll t (.eintr d) => if t ≥ 0 ∧ (d : Int) > t then acc + t.toNat else acc + d
-    | .poll t .timedOut => if t > 0 then acc + t.toNat else acc
-    | _ => acc) 0
+/-! ### typed result lines -/
 
-/-- C07/C16 on observations: the poll timeouts the library passed, against the operation's timeout -/
+def thrownOf (ret : List String) : Thrown :=
+  match ret with
+  | ["throw", "system", e] =>
+    match e.toNat? with
+    | some n => if toString n == e then .system n else .other (" ".intercalate ret)
+    | none => .other (" ".intercalate ret)
+  | ["throw", "logic"] => .logic
+  | ["throw", "closed"] => .closed
+  | _ => .other (" ".intercalate ret)
+
+/-- result of `send` / `sendto`: `ret n` -/
+def retCount (ret : List String) : Ret :=
+  match ret with
+  | ["ret", n] => match n.toNat? with | some n => .count n | none => .bad
+  | "throw" :: _ => .threw (thrownOf ret)
+  | _ => .missing
+
+/-- result of `recv` / `recvfrom`: `ret none` | `ret n hash` -/
+def retData (ret : List String) : Ret :=
+  match ret with
+  | ["ret", "none"] => .none
+  | ["ret", n, h] => .data n.toNat? h
+  | "throw" :: _ => .threw (thrownOf ret)
+  | _ => .missing
+
+/-- result of `listen`: `ret none` | `ret 1` -/
+def retListen (ret : List String) : Ret :=
+  match ret with
+  | ["ret", "none"] => .none
+  | ["ret", _] => .count 1
+  | "throw" :: _ => .threw (thrownOf ret)
+  | _ => .missing
+
+def tokOf (s : String) : Tok := match s.toNat? with | some n => .num n | none => .text s
+
+/-! ### C07 / C16 on observations (modes C07s, C16) -/
+
+/-- the poll timeouts the library passed, against the operation's timeout -/
 def specTimeouts (T : Int) (sys : List SysObs) (nothing : Bool) : Option String := Id.run do
   let mut elapsed : Int := 0
   for s in sys do
@@ -113,11 +143,6 @@ def specTimeouts (T : Int) (sys : List SysObs) (nothing : Bool) : Option String 
   if T = 0 ∧ elapsed ≠ 0 then return some "zero-timeout operation let time pass"
   return none
 
-def hasEintr (sys : List SysObs) : Bool := sys.any fun | .poll _ (.eintr _) => true | _ => false
-def hasPollFail (sys : List SysObs) : Bool := sys.any fun | .poll _ (.fail _) => true | _ => false
-def hasIoFail (sys : List SysObs) : Bool :=
-  sys.any fun | .send _ (.fail _) _ => true | .recv _ "fail" _ => true | _ => false
-
 def resStr {α} (f : α → String) : Res α → String
   | .ok v => "ret " ++ f v
   | .exn (.system e) => s!"throw system {e}"
@@ -128,17 +153,72 @@ def resStr {α} (f : α → String) : Res α → String
 def mkOs (sys : List SysObs) (recvBytes : List Bytes) : Os :=
   let polls := sys.filterMap fun | .poll _ a => some a | _ => none
   let sends := sys.filterMap fun | .send _ a _ => some a | _ => none
-  let rk : List (String × Nat) := sys.filterMap fun | .recv _ k n => some (k, n) | _ => none
-  let recvs : List RecvAns := rk.zipIdx.map fun ((k, n), i) =>
-    if k == "got" then RecvAns.got ((recvBytes.getD i []).take n)
-    else if k == "eof" then RecvAns.eof
-    else RecvAns.fail n
+  let rk : List RecvObs := sys.filterMap fun | .recv _ a => some a | _ => none
+  let recvs : List RecvAns := rk.zipIdx.map fun (a, i) =>
+    match a with
+    | .got n => RecvAns.got ((recvBytes.getD i []).take n)
+    | .eof => RecvAns.eof
+    | .fail n => RecvAns.fail n
   { polls := polls, sends := sends, recvs := recvs, now := 0, calls := [] }
 
 structure Mode where
   c01 : Bool
   c07 : Bool
   c16 : Bool
+
+/-- the clauses of the modes C07s / C16 for one operation -/
+def specC0716 (md : Mode) (sys : List SysObs) : OpObs → Option String :=
+  let tmo (T : Int) (nothing : Bool) : Option String :=
+    if md.c07 ∨ (md.c16 ∧ hasEintr sys) then specTimeouts T sys nothing else none
+  let sig (what : String) (x : Thrown) (logicOk : Bool) : Option String :=
+    if md.c16 ∧ hasEintr sys ∧ !hasPollFail sys ∧ !hasIoFail sys ∧ !(logicOk ∧ x = .logic) then
+      some s!"a signal made {what} fail: {x.text}" else none
+  fun
+  | .send _ T r =>
+    match r with
+    | .count _ => tmo T false
+    | .bad => some "bad ret"
+    | .threw x => sig "Send" x true
+    | _ => some "missing result"
+  | .recv _ T r =>
+    match r with
+    | .none => tmo T true
+    | .data (some _) _ => tmo T false
+    | .data none _ => some "bad ret"
+    | .threw .closed => none
+    | .threw x => sig "Receive" x false
+    | _ => some "missing result"
+  | .sendto data T r =>
+    match r with
+    | .count n => tmo T (n = 0 ∧ data.length > 0 ∧ !(anySend sys))
+    | .bad => some "bad ret"
+    | .threw x => sig "SendTo" x true
+    | _ => some "missing result"
+  | .recvfrom _ T r =>
+    match r with
+    | .none => tmo T true
+    | .data _ _ => tmo T false
+    | .threw x => sig "ReceiveFrom" x false
+    | _ => some "missing result"
+  | .listen T r =>
+    match r with
+    | .none => tmo T true
+    | .count _ => tmo T false
+    | .threw x => sig "Listen" x false
+    | _ => some "missing result"
+  | _ => none
+
+/-- the property predicate of the mode on one transcript block -/
+def judge (md : Mode) (sp : SpecSt) (o : Obs) : Except String SpecSt :=
+  if md.c01 then specStep sp o
+  else
+    match o.op with
+    | .abort msg => .error msg
+    | op =>
+      if nosigBad o.sys then .error "a send() without MSG_NOSIGNAL"
+      else match specC0716 md o.sys op with
+        | some m => .error m
+        | none => .ok sp
 
 partial def go (md : Mode) (s : St) : List String → Verdict
   | [] => { tags := s.tags }
@@ -147,12 +227,16 @@ partial def go (md : Mode) (s : St) : List String → Verdict
     if w.isEmpty then go md s rest else
     let (sys, other, rest') := takeObs rest [] []
     let crash := other.find? (fun o => o.head? == some "crash" ∨ o.head? == some "hang" ∨ o.head? == some "setup-failed")
+    /- judge the block `op` with the mode's predicate, then continue with `k` (correspondence) -/
+    let withSpec (tags : List String) (op : OpObs) (k : SpecSt → Verdict) : Verdict :=
+      match judge md s.spec { op := op, sys := sys } with
+      | .error m => Verdict.spec m tags
+      | .ok sp => k sp
     match crash with
-    | some o => Verdict.spec (" ".intercalate o) s.tags
+    | some o => withSpec s.tags (.abort (" ".intercalate o)) fun _ => Verdict.corr "unreachable" s.tags
     | none =>
     let retLine := other.find? (fun o => o.head? == some "ret" ∨ o.head? == some "throw")
-    let nosigBad := sys.any fun | .send _ _ ns => !ns | _ => false
-    if nosigBad then Verdict.spec "a send() without MSG_NOSIGNAL" s.tags else
+    let eintrTag := if hasEintr sys then ["eintr"] else []
     match w with
     | ["send", len, seed, T] =>
       match len.toNat?, seed.toNat?, T.toInt?, retLine with
@@ -162,49 +246,27 @@ partial def go (md : Mode) (s : St) : List String → Verdict
         let (r, os') := send data T os
         let exp := resStr toString r
         let got := " ".intercalate ret
-        let accepted := (wire os').length
-        let s' := { s with wireLen := s.wireLen + accepted,
-                           wireHash := (data.take accepted).foldl fnvStep s.wireHash,
-                           tags := (if T < 0 then "send.all" else if T = 0 then "send.try" else "send.some") ::
-                                   (if hasEintr sys then ["eintr"] else []) ++
-                                   (if sys.any (fun | .send l (.accept k) _ => k < l | _ => false) then ["short-write"] else []) ++
-                                   (if ret.head? == some "throw" then ["send.throw"] else []) ++ s.tags }
-        -- property on observations
-        let obsAcc := sys.foldl (fun a x => match x with | .send _ (.accept k) _ => a + k | _ => a) 0
-        let specMsg : Option String :=
-          match ret with
-          | ["ret", n] =>
-            match n.toNat? with
-            | some n =>
-              if md.c01 ∧ n > len then some s!"Send returned {n} > size {len}"
-              else if md.c01 ∧ T < 0 ∧ n ≠ len then some s!"Send with unlimited timeout returned {n} of {len}"
-              else if md.c01 ∧ n ≠ obsAcc then some s!"Send returned {n} but the OS accepted {obsAcc} bytes"
-              else if md.c07 ∨ (md.c16 ∧ hasEintr sys) then specTimeouts T sys (n < len ∧ T > 0 ∧ false) else none
-            | none => some "bad ret"
-          | "throw" :: _ =>
-            if (md.c16 ∨ md.c01) ∧ hasEintr sys ∧ !hasPollFail sys ∧ !hasIoFail sys ∧ ret != ["throw", "logic"] then
-              some s!"a signal made Send fail: {got}"
-            else if md.c01 ∧ !hasPollFail sys ∧ !hasIoFail sys ∧ ret != ["throw", "logic"] then
-              some s!"Send threw although no system call failed: {got}"
-            else none
-          | _ => some "missing result"
-        match specMsg with
-        | some m => Verdict.spec m s'.tags
-        | none =>
-          if exp ≠ got then Verdict.corr s!"'{l}': model {exp}, impl {got}" s'.tags
+        let tags := (if T < 0 then "send.all" else if T = 0 then "send.try" else "send.some") ::
+                    eintrTag ++ (if sys.any isShort then ["short-write"] else []) ++
+                    (if ret.head? == some "throw" then ["send.throw"] else []) ++ s.tags
+        withSpec tags (.send data T (retCount ret)) fun sp =>
+          if exp ≠ got then Verdict.corr s!"'{l}': model {exp}, impl {got}" tags
           else if normCalls os'.calls.reverse ≠ callsOf sys then
-            Verdict.corr s!"'{l}': system calls differ from the model's" s'.tags
+            Verdict.corr s!"'{l}': system calls differ from the model's" tags
           else if ¬ (os'.polls.isEmpty ∧ os'.sends.isEmpty) then
-            Verdict.corr s!"'{l}': implementation made more system calls than the model" s'.tags
-          else go md s' rest'
-      | _, _, _, _ => Verdict.corr s!"bad send op or missing result: {l}" s.tags
+            Verdict.corr s!"'{l}': implementation made more system calls than the model" tags
+          else go md { s with spec := sp, tags := tags } rest'
+      | _, _, _, _ => withSpec s.tags .setup fun _ => Verdict.corr s!"bad send op or missing result: {l}" s.tags
     | ["psend", len, seed] =>
       match len.toNat?, seed.toNat? with
-      | some len, some seed => go md { s with peerPending := s.peerPending ++ genBytes seed len, tags := "psend" :: s.tags } rest'
-      | _, _ => Verdict.corr s!"bad line {l}"
-    | ["pclose"] => go md { s with peerClosed := true, tags := "pclose" :: s.tags } rest'
-    | ["pshutwr"] => go md { s with peerClosed := true, tags := "pshutwr" :: s.tags } rest'
-    | ["prst"] => go md { s with peerClosed := true, peerPending := [], tags := "prst" :: s.tags } rest'
+      | some len, some seed =>
+        let data := genBytes seed len
+        withSpec s.tags (.psend data) fun sp =>
+          go md { s with spec := sp, peerPending := s.peerPending ++ data, tags := "psend" :: s.tags } rest'
+      | _, _ => withSpec s.tags .setup fun _ => Verdict.corr s!"bad line {l}"
+    | ["pclose"] => withSpec s.tags .pclose fun sp => go md { s with spec := sp, tags := "pclose" :: s.tags } rest'
+    | ["pshutwr"] => withSpec s.tags .pshutwr fun sp => go md { s with spec := sp, tags := "pshutwr" :: s.tags } rest'
+    | ["prst"] => withSpec s.tags .prst fun sp => go md { s with spec := sp, peerPending := [], tags := "prst" :: s.tags } rest'
     | ["recv", size, T] =>
       match size.toNat?, T.toInt?, retLine with
       | some size, some T, some ret =>
@@ -216,46 +278,20 @@ partial def go (md : Mode) (s : St) : List String → Verdict
           | .exn e => resStr (fun (_ : Unit) => "") (.exn e)
         let got := " ".intercalate ret
         let k := match r with | .ok (some bs) => bs.length | _ => 0
-        let s' := { s with peerPending := s.peerPending.drop k,
-                           tags := (if T < 0 then "recv.unl" else if T = 0 then "recv.zero" else "recv.lim") ::
-                                   (if hasEintr sys then ["eintr"] else []) ++
-                                   (match ret with | ["ret", "none"] => ["recv.none"] | "throw" :: _ => ["recv.throw"] | _ => ["recv.value"]) ++ s.tags }
-        let specMsg : Option String :=
-          match ret with
-          | ["ret", "none"] =>
-            if md.c07 ∨ (md.c16 ∧ hasEintr sys) then specTimeouts T sys true else none
-          | ["ret", n, h] =>
-            match n.toNat? with
-            | some n =>
-              if md.c01 ∧ (n = 0 ∨ n > size) then some s!"Receive reported {n} bytes for a buffer of {size}"
-              else if md.c01 ∧ (n > s.peerPending.length ∨ fnv (s.peerPending.take n) ≠ h) then
-                some "Receive delivered bytes that are not the next bytes of the peer's stream"
-              else if md.c07 ∨ (md.c16 ∧ hasEintr sys) then specTimeouts T sys false else none
-            | none => some "bad ret"
-          | ["throw", "closed"] =>
-            if md.c01 ∧ !s.peerPending.isEmpty ∧ s.tags.contains "pclose" ∧ !s.tags.contains "prst" then
-              some s!"closure reported while {s.peerPending.length} bytes sent before the close were not delivered"
-            else if md.c01 ∧ !s.peerClosed then some "closure reported although the peer did not close"
-            else none
-          | "throw" :: _ =>
-            if (md.c16 ∨ md.c01) ∧ hasEintr sys ∧ !hasPollFail sys ∧ !hasIoFail sys then some s!"a signal made Receive fail: {got}"
-            else none
-          | _ => some "missing result"
-        match specMsg with
-        | some m => Verdict.spec m s'.tags
-        | none =>
-          if exp ≠ got then Verdict.corr s!"'{l}': model {exp}, impl {got}" s'.tags
-          else if normCalls os'.calls.reverse ≠ callsOf sys then Verdict.corr s!"'{l}': system calls differ from the model's" s'.tags
-          else if ¬ (os'.polls.isEmpty ∧ os'.recvs.isEmpty) then Verdict.corr s!"'{l}': implementation made more system calls than the model" s'.tags
-          else go md s' rest'
-      | _, _, _ => Verdict.corr s!"bad recv op or missing result: {l}" s.tags
+        let tags := (if T < 0 then "recv.unl" else if T = 0 then "recv.zero" else "recv.lim") ::
+                    eintrTag ++
+                    (match ret with | ["ret", "none"] => ["recv.none"] | "throw" :: _ => ["recv.throw"] | _ => ["recv.value"]) ++ s.tags
+        withSpec tags (.recv size T (retData ret)) fun sp =>
+          if exp ≠ got then Verdict.corr s!"'{l}': model {exp}, impl {got}" tags
+          else if normCalls os'.calls.reverse ≠ callsOf sys then Verdict.corr s!"'{l}': system calls differ from the model's" tags
+          else if ¬ (os'.polls.isEmpty ∧ os'.recvs.isEmpty) then Verdict.corr s!"'{l}': implementation made more system calls than the model" tags
+          else go md { s with spec := sp, peerPending := s.peerPending.drop k, tags := tags } rest'
+      | _, _, _ => withSpec s.tags .setup fun _ => Verdict.corr s!"bad recv op or missing result: {l}" s.tags
     | ["sync"] =>
       match other.find? (fun o => o.head? == some "peer") with
       | some ["peer", n, h] =>
-        if md.c01 ∧ (n.toNat? ≠ some s.wireLen ∨ h ≠ fnvHex s.wireHash) then
-          Verdict.spec s!"peer obtained {n} bytes (hash {h}); the Send calls account for {s.wireLen} bytes (hash {fnvHex s.wireHash})" s.tags
-        else go md { s with tags := "sync" :: s.tags } rest'
-      | _ => Verdict.corr "missing peer observation" s.tags
+        withSpec s.tags (.sync (tokOf n) h) fun sp => go md { s with spec := sp, tags := "sync" :: s.tags } rest'
+      | _ => withSpec s.tags .setup fun _ => Verdict.corr "missing peer observation" s.tags
     | ["sendto", len, seed, T] =>
       match len.toNat?, seed.toNat?, T.toInt?, retLine with
       | some len, some seed, some T, some ret =>
@@ -264,72 +300,43 @@ partial def go (md : Mode) (s : St) : List String → Verdict
         let (r, os') := sendTo data T os
         let exp := resStr toString r
         let got := " ".intercalate ret
-        let s' := { s with lastSent := (match r with | .ok n => if n = len ∧ (len > 0 ∨ sys.any (fun | .send .. => true | _ => false)) then some data else none | _ => none),
-                           tags := "sendto" :: (if hasEintr sys then ["eintr"] else []) ++ s.tags }
-        let specMsg : Option String :=
-          match ret with
-          | ["ret", n] =>
-            match n.toNat? with
-            | some n =>
-              if md.c01 ∧ n ≠ len ∧ n ≠ 0 then some s!"SendTo returned a partial count {n} of {len}"
-              else if md.c01 ∧ n = 0 ∧ len > 0 ∧ T < 0 then some "SendTo with unlimited timeout returned 0"
-              else if md.c07 ∨ (md.c16 ∧ hasEintr sys) then
-                specTimeouts T sys (n = 0 ∧ len > 0 ∧ !(sys.any fun | .send .. => true | _ => false))
-              else none
-            | none => some "bad ret"
-          | "throw" :: _ =>
-            if (md.c16 ∨ md.c01) ∧ hasEintr sys ∧ !hasPollFail sys ∧ !hasIoFail sys ∧ ret != ["throw", "logic"] then
-              some s!"a signal made SendTo fail: {got}" else none
-          | _ => some "missing result"
-        match specMsg with
-        | some m => Verdict.spec m s'.tags
-        | none =>
-          if exp ≠ got then Verdict.corr s!"'{l}': model {exp}, impl {got}" s'.tags
-          else if normCalls os'.calls.reverse ≠ callsOf sys then Verdict.corr s!"'{l}': system calls differ from the model's" s'.tags
-          else go md s' rest'
-      | _, _, _, _ => Verdict.corr s!"bad sendto op or missing result: {l}" s.tags
+        let tags := "sendto" :: eintrTag ++ s.tags
+        withSpec tags (.sendto data T (retCount ret)) fun sp =>
+          if exp ≠ got then Verdict.corr s!"'{l}': model {exp}, impl {got}" tags
+          else if normCalls os'.calls.reverse ≠ callsOf sys then Verdict.corr s!"'{l}': system calls differ from the model's" tags
+          else go md { s with spec := sp, tags := tags } rest'
+      | _, _, _, _ => withSpec s.tags .setup fun _ => Verdict.corr s!"bad sendto op or missing result: {l}" s.tags
     | ["precv"] =>
-      match other.find? (fun o => o.head? == some "pgot"), s.lastSent with
-      | some ["pgot", n, h], some d =>
-        if md.c01 ∧ (n.toNat? ≠ some d.length ∨ h ≠ fnv d) then Verdict.spec "peer obtained a datagram different from the one sent" s.tags
-        else go md { s with lastSent := none } rest'
-      | _, _ => go md s rest'
+      let g : Option (Option Nat × String) :=
+        match other.find? (fun o => o.head? == some "pgot") with
+        | some ["pgot", n, h] => some (n.toNat?, h)
+        | _ => none
+      withSpec s.tags (.precv g) fun sp => go md { s with spec := sp } rest'
     | ["pdgram", len, seed] =>
       match len.toNat?, seed.toNat? with
-      | some len, some seed => go md { s with dgrams := s.dgrams ++ [genBytes seed len], tags := "pdgram" :: s.tags } rest'
-      | _, _ => Verdict.corr s!"bad line {l}"
+      | some len, some seed =>
+        let data := genBytes seed len
+        withSpec s.tags (.pdgram data) fun sp =>
+          go md { s with spec := sp, dgrams := s.dgrams ++ [data], tags := "pdgram" :: s.tags } rest'
+      | _, _ => withSpec s.tags .setup fun _ => Verdict.corr s!"bad line {l}"
     | ["recvfrom", size, T] =>
       match size.toNat?, T.toInt?, retLine with
       | some size, some T, some ret =>
         let dg := s.dgrams.headD []
         let os := mkOs sys [dg]
         let (r, os') := receiveFrom size T os
-        let consumed := sys.any fun | .recv _ "got" _ => true | _ => false
+        let consumed := anyRecvGot sys
         let exp := match r with
           | .ok none => "ret none"
           | .ok (some bs) => s!"ret {bs.length} {fnv bs}"
           | .exn e => resStr (fun (_ : Unit) => "") (.exn e)
         let got := " ".intercalate ret
-        let s' := { s with dgrams := if consumed then s.dgrams.drop 1 else s.dgrams,
-                           tags := "recvfrom" :: (if hasEintr sys then ["eintr"] else []) ++
-                             (match ret with | ["ret", "none"] => ["recv.none"] | _ => []) ++ s.tags }
-        let specMsg : Option String :=
-          match ret with
-          | ["ret", "none"] => if md.c07 ∨ (md.c16 ∧ hasEintr sys) then specTimeouts T sys true else none
-          | ["ret", n, h] =>
-            if md.c01 ∧ (n.toNat? ≠ some (min size dg.length) ∨ h ≠ fnv (dg.take size)) then
-              some "ReceiveFrom reported a payload that is not the (prefix of the) datagram sent"
-            else if md.c07 ∨ (md.c16 ∧ hasEintr sys) then specTimeouts T sys false else none
-          | "throw" :: _ =>
-            if (md.c16 ∨ md.c01) ∧ hasEintr sys ∧ !hasPollFail sys ∧ !hasIoFail sys then some s!"a signal made ReceiveFrom fail: {got}" else none
-          | _ => some "missing result"
-        match specMsg with
-        | some m => Verdict.spec m s'.tags
-        | none =>
-          if exp ≠ got then Verdict.corr s!"'{l}': model {exp}, impl {got}" s'.tags
-          else if normCalls os'.calls.reverse ≠ callsOf sys then Verdict.corr s!"'{l}': system calls differ from the model's" s'.tags
-          else go md s' rest'
-      | _, _, _ => Verdict.corr s!"bad recvfrom op or missing result: {l}" s.tags
+        let tags := "recvfrom" :: eintrTag ++ (match ret with | ["ret", "none"] => ["recv.none"] | _ => []) ++ s.tags
+        withSpec tags (.recvfrom size T (retData ret)) fun sp =>
+          if exp ≠ got then Verdict.corr s!"'{l}': model {exp}, impl {got}" tags
+          else if normCalls os'.calls.reverse ≠ callsOf sys then Verdict.corr s!"'{l}': system calls differ from the model's" tags
+          else go md { s with spec := sp, dgrams := if consumed then s.dgrams.drop 1 else s.dgrams, tags := tags } rest'
+      | _, _, _ => withSpec s.tags .setup fun _ => Verdict.corr s!"bad recvfrom op or missing result: {l}" s.tags
     | ["listen", T] =>
       match T.toInt?, retLine with
       | some T, some ret =>
@@ -340,31 +347,21 @@ partial def go (md : Mode) (s : St) : List String → Verdict
           | .ok (some _) => "ret 1"
           | .exn e => resStr (fun (_ : Unit) => "") (.exn e)
         let got := " ".intercalate ret
-        let s' := { s with tags := "listen" :: (if hasEintr sys then ["eintr"] else []) ++
-                             (match ret with | ["ret", "none"] => ["recv.none"] | _ => []) ++ s.tags }
-        let specMsg : Option String :=
-          match ret with
-          | ["ret", "none"] => if md.c07 ∨ (md.c16 ∧ hasEintr sys) then specTimeouts T sys true else none
-          | ["ret", _] => if md.c07 ∨ (md.c16 ∧ hasEintr sys) then specTimeouts T sys false else none
-          | "throw" :: _ =>
-            if (md.c16 ∨ md.c01) ∧ hasEintr sys ∧ !hasPollFail sys ∧ !hasIoFail sys then some s!"a signal made Listen fail: {got}" else none
-          | _ => some "missing result"
-        match specMsg with
-        | some m => Verdict.spec m s'.tags
-        | none =>
-          if exp ≠ got then Verdict.corr s!"'{l}': model {exp}, impl {got}" s'.tags
-          else if normCalls os'.calls.reverse ≠ callsOf sys then Verdict.corr s!"'{l}': system calls differ from the model's" s'.tags
-          else go md s' rest'
-      | _, _ => Verdict.corr s!"bad listen op or missing result: {l}" s.tags
-    | "tcp" :: _ => go md { s with tags := ("tcp." ++ w.getD 1 "" ++ "." ++ w.getD 2 "" ++ "." ++ w.getD 3 "") :: s.tags } rest'
-    | "udp" :: _ => go md { s with tags := ("udp." ++ w.getD 1 "" ++ "." ++ w.getD 2 "") :: s.tags } rest'
-    | "acceptor" :: _ => go md s rest'
-    | "os" :: _ => go md s rest'
-    | "pconnect" :: _ => go md s rest'
-    | "now" :: _ => go md s rest'
-    | "->" :: "crash" :: x => Verdict.spec ("crash: " ++ " ".intercalate x) s.tags
-    | "->" :: "hang" :: x => Verdict.spec ("hang: " ++ " ".intercalate x) s.tags
-    | _ => Verdict.corr s!"unknown line {l}" s.tags
+        let tags := "listen" :: eintrTag ++ (match ret with | ["ret", "none"] => ["recv.none"] | _ => []) ++ s.tags
+        withSpec tags (.listen T (retListen ret)) fun sp =>
+          if exp ≠ got then Verdict.corr s!"'{l}': model {exp}, impl {got}" tags
+          else if normCalls os'.calls.reverse ≠ callsOf sys then Verdict.corr s!"'{l}': system calls differ from the model's" tags
+          else go md { s with spec := sp, tags := tags } rest'
+      | _, _ => withSpec s.tags .setup fun _ => Verdict.corr s!"bad listen op or missing result: {l}" s.tags
+    | "tcp" :: _ => withSpec s.tags .setup fun sp => go md { s with spec := sp, tags := ("tcp." ++ w.getD 1 "" ++ "." ++ w.getD 2 "" ++ "." ++ w.getD 3 "") :: s.tags } rest'
+    | "udp" :: _ => withSpec s.tags .setup fun sp => go md { s with spec := sp, tags := ("udp." ++ w.getD 1 "" ++ "." ++ w.getD 2 "") :: s.tags } rest'
+    | "acceptor" :: _ => withSpec s.tags .setup fun sp => go md { s with spec := sp } rest'
+    | "os" :: _ => withSpec s.tags .setup fun sp => go md { s with spec := sp } rest'
+    | "pconnect" :: _ => withSpec s.tags .setup fun sp => go md { s with spec := sp } rest'
+    | "now" :: _ => withSpec s.tags .setup fun sp => go md { s with spec := sp } rest'
+    | "->" :: "crash" :: x => withSpec s.tags (.abort ("crash: " ++ " ".intercalate x)) fun _ => Verdict.corr "unreachable" s.tags
+    | "->" :: "hang" :: x => withSpec s.tags (.abort ("hang: " ++ " ".intercalate x)) fun _ => Verdict.corr "unreachable" s.tags
+    | _ => withSpec s.tags .setup fun _ => Verdict.corr s!"unknown line {l}" s.tags
 
 /-! ### Driver::Step under injected EINTR (transcripts of harness scen/todos.cpp, no ToDos pending) -/
 
